@@ -11,7 +11,7 @@ TRUSTED = T01 + ["CPython float/int text round trips: float(repr(x)) == x, float
 KINDS = ["colander", "combine", "chef"]
 
 
-def tasks(tier):
+def _tasks0(tier):
     # text side: writer/parser round trips on skeletons (S); binary side: the writers' worker contracts (U) - what a
     # worker writes is, by T-FS, an OnDisk file again (canonical header + F-order payload at the returned offsets), i.e. the
     # precondition of every reader/worker of the next operation: the one-step lemma of the history induction
@@ -64,3 +64,10 @@ def scenarios(tier, seed):
 def run_scenario(p, wd):
     from harness.rt_pipeline import run_pipeline_scenario
     return run_pipeline_scenario(p, wd)
+
+
+
+def tasks(tier):
+    # the FAB header parsers / formatter (real bodies on canonical header text): the obligations behind the header contracts
+    from props.parsers import parser_tasks
+    return _tasks0(tier) + parser_tasks("C14", nds=(2, 3))
